@@ -45,6 +45,8 @@ def gen_spec(rng, cfg):
         counter[0] += 1
         nm = LETTERS[i % 26] + (str(i // 26) if i >= 26 else "")
         if ctype == "obj":
+            if rng.random() < 0.12:
+                return "_%s_%s" % (nm, salt)     # a data attribute whose name starts with an underscore
             return "%s_%s" % (nm, salt)
         r = rng.random()
         if cfg.get("npkeys") and r < 0.06 and not boolkey[0]:
@@ -160,7 +162,7 @@ class ExprGen:
             k = self.pick([("arith", 4), ("bitw", 2), ("shift", 1), ("un", 2), ("abs", 1), ("divlit", 1),
                            ("pow", 0.5), ("floor", 1), ("cmp", 1), ("ckey", 1 if self.lists else 0)])
         else:
-            k = self.pick([("arith", 5), ("div", 3), ("un", 1.5), ("abs", 1), ("round", 1), ("pow", 0.5),
+            k = self.pick([("arith", 5), ("div", 3), ("un", 1.5), ("abs", 1), ("round", 1), ("pow", 0.5), ("dmidx", 0.6 if self.cfg.get("dmidx") else 0),
                            ("call", 2 if self.spec.funcs else 0), ("vsum", 0.7 if (self.spec.funcs and self.leafconts) else 0),
                            ("int", 1.5), ("ckey", 1 if self.lists else 0)])
         d = depth - 1
@@ -205,6 +207,9 @@ class ExprGen:
             return self._bin(rng.choice(["/", "//", "%"]), "f", "f", d)
         if k == "round":
             return ("bi", "round", self.gen("f", d, True), (rng.randint(0, 3),))
+        if k == "dmidx":
+            # item access on the RESULT of an expression: divmod(x, n)[i]
+            return ("idx", ("bi", "divmod", self.gen("f", d, True), (rng.choice([2, 3, 0.5]),)), rng.choice([0, 1]))
         if k == "call":
             f = rng.choice(["add3", "lin", "mix"])
             if f == "add3":
@@ -212,8 +217,11 @@ class ExprGen:
                 kw = (("c", self.gen_arg("f", 0, False)),) if rng.random() < 0.5 else ()
             elif f == "lin":
                 args = (self.gen_arg("f", d, True),)
-                kw = tuple(x for x in [("k", self.gen_arg("f", -1, False)) if rng.random() < 0.6 else None,
-                                       ("q", self.gen_arg("f", 0, False)) if rng.random() < 0.4 else None] if x)
+                kw = [x for x in [("k", self.gen_arg("f", -1, False)) if rng.random() < 0.6 else None,
+                                  ("q", self.gen_arg("f", 0, False)) if rng.random() < 0.5 else None] if x]
+                if rng.random() < 0.5:
+                    kw.reverse()                 # keyword arguments are written in any order
+                kw = tuple(kw)
             else:
                 args = (self.gen_arg("f", d, True), self.gen_arg("f", d, False))
                 kw = (("w", ("lit", rng.choice([0.25, 0.5, 0.75]))),) if rng.random() < 0.5 else ()
@@ -266,6 +274,7 @@ def swarm_config(rng, tier="quick", **over):
         if rng.random() < 0.2:
             offs.append(k)
     cfg["ops_off"] = offs
+    cfg["dmidx"] = rng.random() < 0.3          # item access on the result of an expression: divmod(x, n)[i]
     for k, v in over.pop("weights_over", {}).items():
         w[k] = v
     cfg.update(over)
@@ -296,8 +305,10 @@ class HistoryGen:
         kind = self._wpick(self.cfg["weights"])
         free = [l for l in spec.leaves if l not in m.kn_target and
                 (l not in m.ft_target or (m.ft_target[l][1] == 0 and m.ftasks[m.ft_target[l][0]].get("reftid")))]
+        if kind in ("setv", "sete", "inpl", "load") and not free:
+            return None
         if kind == "setv":
-            p = rng.choice(free)
+            p = rng.choice(free + [l for l in m.kn_target if rng.random() < 0.5])      # a knob target may be given a new base value
             return ("setv", p, gen_value(rng, spec.leaf_type[p]), rng.choice(STYLES))
         if kind == "sete":
             p = rng.choice(free)
@@ -343,11 +354,14 @@ class HistoryGen:
             dpool = [l for l in spec.leaves if l not in targets]
             nd = rng.randint(1, min(3, len(dpool)))
             deps = tuple(rng.sample(dpool, nd))
+            if rng.random() < 0.12:
+                nd, deps = 0, ()               # a task without dependencies (an initialiser): it only runs when asked to
             coefs = tuple(tuple(rng.choice([0.5, 1.0, 2.0, -1.0, 0.25]) for _ in range(nd)) + (rng.choice([0.0, 1.0, -0.5]),)
                           for _ in range(nt))
             self.tcount += 1
             # a task id is any hashable: usually a string, sometimes the reference of the (first) target
-            return ("regf", "t%d%s" % (self.tcount, self.cfg["salt"]), deps, targets, coefs, rng.random() < 0.3)
+            return ("regf", "t%d%s" % (self.tcount, self.cfg["salt"]), deps, targets, coefs, rng.random() < 0.3,
+                    rng.random() < 0.3)      # last flag: targets/dependencies handed over as lists (with repeated entries) instead of sets
         if kind == "unregf":
             if not m.ftasks:
                 return None
